@@ -22,8 +22,8 @@ import (
 var Check = &ev.Check{
 	ID:    "C08",
 	Level: "exploration",
-	Rule: "(a) every reference cycle of length 1..3 (thorough: plus length 4 over the 8 core kinds) over 18 node kinds (typedef direct/list/set/map-key/map-value, struct optional/required/list field, union, exception, " +
-		"const i32/i64/list/map/struct-literal, struct field default -> const, const of a struct type, service extends) including mixed and ill-kinded ones, each in a single file and in one file per node (cyclic / self includes); " +
+	Rule: "(a) every reference cycle of length 1..3 (thorough: plus length 4 over the 8 core kinds) over 21 node kinds (typedef direct/list/set/map-key/map-value, struct optional/required/list field, union, exception, " +
+		"const i32/i64/list/map/struct-literal, struct field default -> const, default = {} / [{}] literal of a struct type, default = constant of the own struct type, const of a struct type, service extends; cycles of length<=2 also reached through 4 kinds of entry definition in a separate root file) including mixed and ill-kinded ones, each in a single file and in one file per node (cyclic / self includes); " +
 		"(b) every token sequence of length<=4 (quick) / <=5 (thorough) over a reduced 24-token alphabet and <=3 / <=4 over the full 61-token alphabet, every byte string of length<=2 over 256 values; " +
 		"(c) every single-token deletion, duplication and substitution (10 substitutes) of each corpus file (plugin/api.thrift and gen/internal/tests/thrift/*.thrift; quick: files <= 400 tokens, thorough: all files, budget-capped). " +
 		"Each input runs compile.Compile and, if it compiled, gen.Generate in a memory-limited worker process; a panic, fatal error (stack overflow) or hang is attributed to the input. Cases are distinct inputs by construction; non-trivial = every case.",
@@ -56,7 +56,15 @@ func sigClass(c string) string {
 	if len(p) < 3 {
 		return c
 	}
+	if i := strings.Index(p[1], "+"); i >= 0 {
+		p[1] = p[1][:i] // drop the layout, keep the entry kind
+	} else {
+		p[1] = ""
+	}
 	set := map[string]bool{}
+	if p[1] != "" {
+		set[p[1]] = true
+	}
 	for _, k := range strings.Split(p[2], ">") {
 		set[k] = true
 	}
@@ -160,9 +168,43 @@ var kinds = []kind{
 	{"const-i64", func(i int, T, C, V string) string { return fmt.Sprintf("const i64 C%d = %s", i, C) }},
 	{"const-map", func(i int, T, C, V string) string { return fmt.Sprintf("const map<string, i32> C%d = {\"k\": %s}", i, C) }},
 	{"const-of-type", func(i int, T, C, V string) string { return fmt.Sprintf("const %s C%d = {\"x\": %s}", T, i, C) }},
+	{"struct-default-literal", func(i int, T, C, V string) string {
+		return fmt.Sprintf("struct T%d { 1: optional i32 n; 2: optional %s nxt = {} }", i, T)
+	}},
+	{"struct-default-own-const", func(i int, T, C, V string) string {
+		return fmt.Sprintf("struct T%d { 1: optional i32 n; 2: optional %s nxt = %s }\nconst T%d C%d = {\"n\": 1}", i, T, C, i, i)
+	}},
+	{"struct-default-list-literal", func(i int, T, C, V string) string {
+		return fmt.Sprintf("struct T%d { 1: optional list<%s> xs = [{}] }", i, T)
+	}},
 	{"service-fn-type", func(i int, T, C, V string) string {
 		return fmt.Sprintf("service V%d extends %s { %s f(1: %s a = %s) }", i, V, T, T, C)
 	}},
+}
+
+// entries are optional extra definitions outside the cycle, placed in a root
+// file of their own, through which the cycle is first reached.
+var entries = []struct {
+	name string
+	def  func(T, C, V string) string
+}{
+	{"none", nil},
+	{"entry-const-i32", func(T, C, V string) string { return "const i32 ENTRY = " + C }},
+	{"entry-typedef", func(T, C, V string) string { return "typedef " + T + " ENTRY" }},
+	{"entry-struct-default", func(T, C, V string) string { return "struct ENTRY { 1: optional " + T + " f = " + C + " }" }},
+	{"entry-service", func(T, C, V string) string { return "service ENTRY extends " + V + " {}" }},
+}
+
+func cycleInputEntry(ks []int, perFile bool, entry int) input {
+	in := cycleInput(ks, perFile)
+	if entry == 0 {
+		return in
+	}
+	e := entries[entry]
+	in.Files["root.thrift"] = "include \"./f0.thrift\"\n" + e.def("f0.T0", "f0.C0", "f0.V0") + "\n"
+	in.Root = "root.thrift"
+	in.Class = strings.Replace(in.Class, "cycle:", "cycle:"+e.name+"+", 1)
+	return in
 }
 
 func cycleInput(ks []int, perFile bool) input {
@@ -198,12 +240,14 @@ func cycleInput(ks []int, perFile bool) input {
 func cycles(quick bool, yield func(input)) {
 	n := len(kinds)
 	for _, perFile := range []bool{false, true} {
-		for a := 0; a < n; a++ {
-			yield(cycleInput([]int{a}, perFile))
-		}
-		for a := 0; a < n; a++ {
-			for b := 0; b < n; b++ {
-				yield(cycleInput([]int{a, b}, perFile))
+		for e := range entries {
+			for a := 0; a < n; a++ {
+				yield(cycleInputEntry([]int{a}, perFile, e))
+			}
+			for a := 0; a < n; a++ {
+				for b := 0; b < n; b++ {
+					yield(cycleInputEntry([]int{a, b}, perFile, e))
+				}
 			}
 		}
 		for a := 0; a < n; a++ {
